@@ -7,6 +7,7 @@ C18 line-protocol driver, part 2: the consumer streams (see harness/internal/c18
   httpchain <varTmpl> <mapSource> <a|l> <P> <S> <reOut> <mapDefault> <hdrTmpl> <bodyTmpl> <X-In> <q> <secret>
   httptpl <bodyTmpl> <X-In> <q> <secret>
   cfenv <bodySrc> <$VERIF_C18_CF | !> <X-In> <secret>
+  httpdial <dialTmpl> <varTmpl> <X-In> <q> <secret>
 `!` = JSON null / absent.  All byte fields must be ASCII.
 -/
 import CaddyModel.C18.MapH
@@ -16,6 +17,7 @@ import CaddyModel.C18.HostGlue
 import CaddyModel.C18.Chain
 import CaddyModel.C18.Tpl
 import CaddyModel.C18.CfEnv
+import CaddyModel.C18.Dial
 
 namespace CaddyModel.C18
 
@@ -201,6 +203,19 @@ def handleCfEnv : List String → String
         | some out => "ok " ++ Hex.encode out
         | none => "panic"
     | _, _, _, _ => "bad-op"
+  | _ => "bad-op"
+
+/-! ### httpdial -/
+
+def handleDial : List String → String
+  | [dialT, varT, xin, q, secret] =>
+    match Hex.decode dialT, Hex.decode varT, Hex.decode xin, Hex.decode q, Hex.decode secret with
+    | some dialT, some varT, some xin, some q, some secret =>
+      if ![dialT, varT, xin, q, secret].all isAscii || dialT.isEmpty then "bad-op"
+      else match dialServe false dialT varT ⟨xin, q, [47], secret, []⟩ with
+        | .ok network host port => "ok " ++ Hex.encode network ++ " " ++ Hex.encode host ++ " " ++ toString port
+        | .err => "err:dial"
+    | _, _, _, _, _ => "bad-op"
   | _ => "bad-op"
 
 end CaddyModel.C18
